@@ -52,6 +52,7 @@ inductive Obs where
   | cbEnter | cbExit
   | msgEnter (n : Nat) | msgExit (n : Nat) | msgAbandon (n : Nat) | msgRaise (n : Nat)
   | ret (u : Nat) (r : Res)
+  | loginReply (n : Nat)        -- `login()` consumed message `n` as the reply to its request
   deriving DecidableEq, Repr, Inhabited
 
 /-- what the closer does once `close()` returns to it -/
@@ -185,11 +186,13 @@ def alive (x : Status) : Bool :=
   | .done => false
   | _ => true
 
+/-- wake task `t` if it is suspended in `queue.get()` -/
+def St.wakeGetter (s : St) (t : Tid) : St :=
+  if s.status t = .waitQ then s.setStatus t .ready else s
+
 /-- `queue.put(m)`: append and wake a waiting getter -/
 def St.put (s : St) (m : Nat) : St :=
-  let s := { s with queue := s.queue ++ [m] }
-  let s := if s.status .D = .waitQ then s.setStatus .D .ready else s
-  if s.status .V = .waitQ then s.setStatus .V .ready else s
+  (({ s with queue := s.queue ++ [m] } : St).wakeGetter .D).wakeGetter .V
 
 /-- `initiate_close()` -/
 def St.initiateClose (s : St) : St :=
@@ -227,37 +230,38 @@ def runCont (s : St) (t : Tid) : Cont → St
   | .closingTail => s.finish t
   | .userTail u r => (s.emit (.ret u r)).finish t
 
+/-- the end of the close body: `transport.close()`, then the user's close callback -/
+def closeTail (cfg : Cfg) (s : St) (t : Tid) (c : Cont) : St :=
+  let s := s.emit .tclose
+  if !cfg.hasCb then runCont { s with cstage := .finished } t c
+  else
+    let s := s.emit .cbEnter
+    match cfg.cbBeh with
+    | .await k => { (s.setStatus t .ready).setProg t .inClose with cstage := .cb t k c }
+    | _ => runCont { (s.emit .cbExit) with cstage := .finished } t c   -- `close()` / `initiate_close()` inside the callback: guards → nothing
+
+/-- the state in which the closer `t` is suspended awaiting the cancelled task `x` (it resumes at stage `pc + 1`) -/
+def suspendOn (s : St) (t x : Tid) (pc : Nat) (c : Cont) : St :=
+  { ((s.cancelTask x).setStatus t (.waitT x)).setProg t .inClose with cstage := .body t (pc + 1) c }
+
 /-- run the close body from `pc` until the next suspension (fuel = number of stages left) -/
 def execClose (cfg : Cfg) (s : St) (t : Tid) (c : Cont) : Nat → Nat → St
   | 0, _ => s
   | fuel + 1, pc =>
     match stopTarget pc with
     | some x =>
-      -- stage entry effects
-      let s := if pc = 0 then { s with qClosed := true } else s
       if pc = 4 && s.rStopped then execClose cfg s t c fuel 6        -- `Reader.stop`: already stopped
       else if x = t || !(alive (s.status x)) then
         -- `stop_task`: None / finished / the current task: nothing to wait for
         let s := if pc = 0 then { s with dispSet := false } else s
         let s := if pc = 4 then { s with rStopped := true } else s   -- nested on_close → close(): guard; `_stopped = True`
         execClose cfg s t c fuel (if pc = 4 then 6 else pc + 1)
-      else
-        -- cancel it and await it
-        let s := s.cancelTask x
-        { (s.setStatus t (.waitT x)).setProg t .inClose with cstage := .body t (pc + 1) c }
+      else suspendOn s t x pc c                                      -- cancel it and await it
     | none =>
       if pc = 5 then
         -- resumed after awaiting the reader task
         execClose cfg { s with rStopped := true } t c fuel 6
-      else
-        -- pc = 6: transport.close(); user's close callback
-        let s := s.emit .tclose
-        if !cfg.hasCb then runCont { s with cstage := .finished } t c
-        else
-          let s := s.emit .cbEnter
-          match cfg.cbBeh with
-          | .await k => { (s.setStatus t .ready).setProg t .inClose with cstage := .cb t k c }
-          | _ => runCont { (s.emit .cbExit) with cstage := .finished } t c   -- `close()` / `initiate_close()` inside the callback: guards → nothing
+      else closeTail cfg s t c
 
 /-- resuming the close body at stage `pc` after the awaited task finished: stage bookkeeping, then go on -/
 def resumeClose (cfg : Cfg) (s : St) (t : Tid) (pc : Nat) (c : Cont) : St :=
@@ -267,7 +271,9 @@ def resumeClose (cfg : Cfg) (s : St) (t : Tid) (pc : Nat) (c : Cont) : St :=
 /-- `await self.close()` called by task `t` -/
 def enterClose (cfg : Cfg) (s : St) (t : Tid) (c : Cont) : St :=
   if s.closed then runCont s t c
-  else execClose cfg { s with closed := true, cstage := .body t 0 c } t c 8 0
+  else
+    -- `_closed = True`; `queue.stop()` sets the queue's own flag in the same atomic step
+    execClose cfg { s with closed := true, qClosed := true, cstage := .body t 0 c } t c 8 0
 
 /-- task `t`, whose program is `inClose`, runs (`cancelledNow`: a user cancelled it meanwhile) -/
 def stepInClose (cfg : Cfg) (s : St) (t : Tid) (cancelledNow : Bool) : St :=
@@ -335,7 +341,7 @@ def stepMon (cfg : Cfg) (s : St) (isLocal : Bool) : St :=
 def loginResume (cfg : Cfg) (s : St) (t : Tid) (u : Nat) : St :=
   match s.vres with
   | some n =>
-      let s := { s with vres := none, rcvBusy := false, taken := s.taken ++ [n] }
+      let s := ({ s with vres := none, rcvBusy := false, taken := s.taken ++ [n] } : St).emit (.loginReply n)
       if n = 0 && !(s.closed || s.closingTask) then
         -- accepted: heartbeats, dispatching, return the session
         (((s.startHeartbeats).startDispatching cfg).emit (.ret u .ok)).finish t
